@@ -75,6 +75,26 @@ def rule_addr_guard(fx, col):
             el = exp['place']['local'] if exp['k'] in ('copy', 'move') else None
             src = b.origins(exp)
             matched = False
+
+            def chain(op):
+                # follow single-definition plain copies: (root local, blocks in which the copies are made)
+                bbs = []
+                for _ in range(8):
+                    if op is None or op.get('k') not in ('copy', 'move') or op['place']['proj']:
+                        return None, bbs
+                    l = op['place']['local']
+                    ds = b.assigns().get(l, [])
+                    if len(ds) == 1 and ds[0][2] == 'stmt' and not ds[0][4] and ds[0][3]['k'] == 'use' and ds[0][3]['op'].get('k') in ('copy', 'move') \
+                            and not ds[0][3]['op']['place']['proj']:
+                        bbs.append(ds[0][0])
+                        op = ds[0][3]['op']
+                        continue
+                    return l, bbs
+                return None, bbs
+            root_e, chain_e = chain(exp)
+            # the expected value is READ from the loop variable in this iteration: a copy made before the loop (a closure that captured
+            # the variable by value when it was built) still holds the generation of the first look
+            stale = root_e is not None and any(x not in blocks for x in chain_e) and len(b.assigns().get(root_e, [])) > 1
             for bb in blocks:
                 t = b.term(bb)
                 if t['k'] == 'switch':
@@ -85,9 +105,23 @@ def rule_addr_guard(fx, col):
                             gen_succ = [tb for v, tb in t['targets'] if v == cx.GEN_TAG]
                             if gen_succ and b.dominates(gen_succ[0], c.bb):
                                 matched = True
+            if not matched:
+                # the `if` / `while` form of the dispatch: `gen & TAG_MASK == GEN_TAG` taken on the equal outcome
+                for (sbb, succ, val) in U.dominating_branches(b, c.bb, unwind=False):
+                    r = U.bool_outcome(b, sbb, val) if sbb in blocks else None
+                    if not r or not r[0] or r[0][0] != 'rv' or r[0][3]['k'] != 'binop' or r[0][3]['op'] not in ('Eq', 'Ne'):
+                        continue
+                    rv, truth = r[0][3], r[1]
+                    if (rv['op'] == 'Eq') != truth:
+                        continue
+                    for x, y in ((rv['l'], rv['r']), (rv['r'], rv['l'])):
+                        dx = U.def_rvalue(b, x)
+                        if U.int_of(b, y) == cx.GEN_TAG and dx and dx[0] == 'rv' and dx[3]['k'] == 'binop' and dx[3]['op'] == 'BitAnd' \
+                                and U.int_of(b, dx[3]['r']) == cx.TAG_MASK and b.origins(dx[3]['l']) == src:
+                            matched = True
             fresh_between = [s for s in sites if s.cls == 'control' and s.op == 'load' and s.bb in blocks and ('call', s.bb) in src
                              and not _is_loop_carried(b, s, blocks)]
-            col.add('GEN-REVALIDATE', '%s|expected is the matched generation' % fn, matched,
+            col.add('GEN-REVALIDATE', '%s|expected is the matched generation' % fn, matched and not stale,
                     'the compare_exchange expects the control value that was matched as GEN_TAG in this iteration (success proves the reader is still in that transaction)', c.loc)
             # (3) the published address is only compared, never dereferenced or loaded from
             for s in addr_loads:
@@ -124,6 +158,14 @@ def rule_addr_guard(fx, col):
                     if f[0] == 'bool' and f[1]:
                         d = f[1]
                         if d[0] == 'rv' and d[3]['k'] == 'binop' and d[3]['op'] in ('Eq', 'Ne'):
+                            tagd = False
+                            for x, y in ((d[3]['l'], d[3]['r']), (d[3]['r'], d[3]['l'])):
+                                dx = U.def_rvalue(b, x)
+                                if U.int_of(b, y) in (cx.GEN_TAG, cx.REPLACEMENT_TAG, cx.IDLE) and dx and dx[0] == 'rv' and dx[3]['k'] == 'binop' \
+                                        and dx[3]['op'] == 'BitAnd' and U.int_of(b, dx[3]['r']) == cx.TAG_MASK:
+                                    tagd = True
+                            if tagd:
+                                continue  # the dispatch on the tag of the control word, written as a comparison
                             src = b.origins(d[3]['l']) | b.origins(d[3]['r'])
                             if any(o[0] == 'call' and o[1] in [s.bb for s in addr_loads] for o in src):
                                 continue  # the address guard
